@@ -28,9 +28,11 @@ RULE = (
     "trainable initial states; then every alphabet operation applied to the copy must leave the original's snapshot hash unchanged; "
     "views (level, comp, multi-location .loc, global scope, select, group, channel, synapse) of every state are copied by pickle, deepcopy "
     "and .copy(): view tables incl. the sharing column, view index sets, scope and base must be equal, make_trainable/set through the copied "
-    "view must behave as through the view itself, and the original module must stay unchanged"
+    "view must behave as through the view itself, and the original module must stay unchanged; every copy is also made with the "
+    "original dropped and garbage-collected before the copy is used (tables, simulation, set_ncomp), and every initial state is saved "
+    "here and loaded in a fresh interpreter (tables, simulation, set_ncomp must equal the saving process)"
 )
-REQUIRED_COVER = ["view_copied", "loc_view_copied", "make_trainable_on_copied_view", "coordinates_edited_on_copy", "swc_radius_functions", "network_with_synapses", "trainables", "clamps", "groups", "gradient_compared",
+REQUIRED_COVER = ["copy_used_after_original_died", "set_ncomp_on_swc_copy_after_original_died", "pickle_loaded_in_fresh_process", "view_copied", "loc_view_copied", "make_trainable_on_copied_view", "coordinates_edited_on_copy", "swc_radius_functions", "network_with_synapses", "trainables", "clamps", "groups", "gradient_compared",
                   "set_ncomp_on_unpickled_swc", "copy_edited_original_unchanged"]
 ASSUMPTIONS = ["eager CPU execution is deterministic, so identical modules give bit-identical integrate results"]
 SIG_INIT = False
@@ -230,6 +232,62 @@ def check_views(m, init, hist, out, viol):
                 return
 
 
+def check_after_original_died(init, hist, snap, sim0, out, viol):
+    """A copy must not depend on its original staying alive (what save/load across sessions needs): the original is dropped
+    and the cyclic garbage collector run BEFORE the copy is used."""
+    import gc
+    import sys
+
+    mod = sys.modules[__name__]
+    ncomp_ops = [op for op in explorer.ops_for(mod, init) if "ncomp" in op]
+    for how in ("pickle", "deepcopy"):
+        def make():
+            orig = explorer.replay(mod, init, hist)
+            res = pickle.dumps(orig) if how == "pickle" else copy.deepcopy(orig)
+            del orig
+            gc.collect()
+            return pickle.loads(res) if how == "pickle" else res
+
+        label = how + "_original_dead"
+        c = make()
+        out["evals"] += 1
+        out["cover"].append("copy_used_after_original_died")
+        d = canon.diff(snap, canon.snapshot(c, with_xyzr=True))
+        if d:
+            viol("tables_differ", label, f"differs at {d[:6]}", where=d[0].split("/")[1])
+            continue
+        if sim0 is not None:
+            try:
+                sim1 = _integrate(c)
+                if sim1.shape != sim0.shape or not np.array_equal(sim1, sim0, equal_nan=True):
+                    viol("simulation_differs", label, "copy used after the original was collected simulates differently")
+            except Exception as e:
+                viol("simulation_differs", label, f"copy raised {type(e).__name__}: {str(e)[:150]} but original simulates")
+        for op in ncomp_ops:
+            ref = explorer.replay(mod, init, hist)
+            try:
+                OPS[op](ref)
+                want = ("ok", canon.snapshot(ref))
+            except Exception as e:
+                want = ("raise", type(e).__name__)
+            del ref
+            cc = make()
+            try:
+                OPS[op](cc)
+                got = ("ok", canon.snapshot(cc))
+            except Exception as e:
+                got = ("raise", type(e).__name__)
+            out["transitions"] += 1
+            if init == "swc_cell":
+                out["cover"].append("set_ncomp_on_swc_copy_after_original_died")
+            if got[0] != want[0]:
+                viol("behaviour_differs_after_copy", label, f"{op}: {got[0]} on the copy ({got[1] if got[0] == 'raise' else ''}), {want[0]} on the original", op=op.split("_")[0])
+            elif got[0] == "ok":
+                dd = canon.diff(want[1], got[1])
+                if dd:
+                    viol("behaviour_differs_after_copy", label, f"{op} on the copy (original collected) differs from {op} on the original at {dd[:4]}", op=op.split("_")[0])
+
+
 def check_state(init, hist, do_sim, do_grad):
     import sys
 
@@ -333,6 +391,96 @@ def check_state(init, hist, do_sim, do_grad):
         check_views(explorer.replay(mod, init, hist), init, hist, out, viol)
     except Exception as e:
         viol("view_copy_raised", "harness", f"{type(e).__name__}: {str(e)[:200]}")
+    try:
+        check_after_original_died(init, hist, snap, sim0 if sim_err is None else None, out, viol)
+    except Exception as e:
+        viol("copy_raised", "original_dead", f"{type(e).__name__}: {str(e)[:200]}")
+    out["sample"] = wit
+    return out
+
+
+_CHILD = r"""
+import json, pickle, sys
+sys.path.insert(0, sys.argv[3])
+from vf import env
+env.setup()
+import numpy as np
+from vf import canon
+from vf.checks import c18
+m = pickle.load(open(sys.argv[1], "rb"))
+res = {"hash": canon.hash_of(canon.snapshot(m, with_xyzr=True))}
+try:
+    res["sim"] = np.asarray(c18._integrate(m)).tolist()
+except Exception as e:
+    res["sim"] = "raise:" + type(e).__name__
+ops = json.loads(sys.argv[2])
+res["ops"] = {}
+for op in ops:
+    mm = pickle.load(open(sys.argv[1], "rb"))
+    try:
+        c18.OPS[op](mm)
+        res["ops"][op] = canon.hash_of(canon.snapshot(mm))
+    except Exception as e:
+        res["ops"][op] = "raise:" + type(e).__name__
+print("RESULT " + json.dumps(res))
+"""
+
+
+def fresh_process(item):
+    """save in this process, load in a fresh interpreter (the FAQ's save/load): tables, simulation and set_ncomp on the loaded
+    module must equal those of the module in the saving process."""
+    import json
+    import subprocess
+    import sys
+
+    mod = sys.modules[__name__]
+    init, hist = item["init"], item["hist"]
+    out = {"violations": [], "cover": [], "refusals": [], "digests": [], "evals": 1, "transitions": 0}
+    wit = {"init": init, "history": list(hist), "copy": "pickle_fresh_process"}
+
+    def viol(rule, msg, **extra):
+        sig = {"rule": rule, "copy": "pickle_fresh_process"}
+        sig.update(extra)
+        out["violations"].append({"sig": sig, "witness": wit, "msg": msg})
+
+    m = explorer.replay(mod, init, hist)
+    want_hash = canon.hash_of(canon.snapshot(m, with_xyzr=True))
+    try:
+        want_sim = np.asarray(_integrate(m)).tolist()
+    except Exception as e:
+        want_sim = "raise:" + type(e).__name__
+    ops = [op for op in explorer.ops_for(mod, init) if "ncomp" in op][:3]
+    want_ops = {}
+    for op in ops:
+        mm = explorer.replay(mod, init, hist)
+        try:
+            OPS[op](mm)
+            want_ops[op] = canon.hash_of(canon.snapshot(mm))
+        except Exception as e:
+            want_ops[op] = "raise:" + type(e).__name__
+    fd, path = tempfile.mkstemp(suffix=".pkl")
+    try:
+        with os.fdopen(fd, "wb") as f:
+            pickle.dump(m, f)
+        root = os.path.dirname(os.path.dirname(os.path.dirname(os.path.abspath(__file__))))
+        pr = subprocess.run([sys.executable, "-B", "-c", _CHILD, path, json.dumps(ops), root], capture_output=True, text=True, timeout=900,
+                            cwd=root)
+    finally:
+        os.unlink(path)
+    line = [l for l in pr.stdout.splitlines() if l.startswith("RESULT ")]
+    if not line:
+        viol("copy_raised", f"loading the pickle in a fresh process failed: {pr.stderr[-300:]}")
+        return out
+    got = json.loads(line[0][7:])
+    out["cover"].append("pickle_loaded_in_fresh_process")
+    if got["hash"] != want_hash:
+        viol("tables_differ", "module loaded in a fresh process has different tables", where="fresh_process")
+    if got["sim"] != want_sim:
+        viol("simulation_differs", "module loaded in a fresh process simulates differently")
+    for op in ops:
+        if got["ops"].get(op) != want_ops[op]:
+            viol("behaviour_differs_after_copy", f"{op} on the module loaded in a fresh process gives a different module than {op} in the saving process", op=op.split("_")[0])
+    out["digests"].append(digest([init, list(hist), "fresh_process", got["hash"]]))
     out["sample"] = wit
     return out
 
@@ -364,8 +512,15 @@ def explore(ctx):
     ctx.note("states_checked", len(states))
     items = [{"states": states[i:i + 2]} for i in range(0, len(states), 2)]
     ctx.map("roundtrip", items)
+    # save here, load in a fresh interpreter: every initial state, plus (thorough) every depth-1 state of the SWC cell
+    fresh = [{"init": st["init"], "hist": st["hist"]} for st in states
+             if len(st["hist"]) == 0 or (ctx.tier != "quick" and st["init"] == "swc_cell" and len(st["hist"]) == 1)]
+    ctx.note("states_loaded_in_fresh_process", len(fresh))
+    ctx.map("fresh_process", fresh)
 
 
 def replay(w):
+    if w.get("copy") == "pickle_fresh_process":
+        return fresh_process({"init": w["init"], "hist": w["history"]})["violations"]
     r = check_state(w["init"], w["history"], True, True)
     return [v for v in r["violations"] if v["witness"].get("copy") == w.get("copy")]
